@@ -13,8 +13,11 @@ PROPERTY = "C03"
 RULE = ("the C01 request-history state machine with aggressive cache settings "
         "(clean-up period 1..6, memory threshold from half a scalar field - "
         "i.e. smaller than the frozen inputs alone - upward), inputs frozen "
-        "through freeze_data or load_data, optional var_importance overrides "
-        "in {0, 0.002, 0.1, 1, 10}. After EVERY request: every frozen input "
+        "through freeze_data or load_data (and whatever a later, drawn "
+        "freeze_data() call finds in the cache), optional var_importance "
+        "overrides in {0, 0.002, 0.1, 1, 10}, constructor flags drawn "
+        "independently of the data in a third of the histories, bracket "
+        "requests for the 16 methods that take arguments. After EVERY request: every frozen input "
         "is still cached, is the same object with the same bytes and "
         "importance 0; last_accessed is a subset of data; no exception left "
         "clean-up (an exception a fresh instance raises too is not counted); "
